@@ -212,3 +212,22 @@ proof! {
         trunc_unknown_form::<LinkedList<u8>>(&b);
     }
 }
+
+proof! {
+    //@ props=C08,C12 tier=quick bounds=unknown-length-form;Vec<u16>;empty-list-cut-before-its-terminator;one-element-list-cut-before-its-terminator cap=900
+    fn c08_trunc_unknown_form_min() unwind(6) {
+        // -1 marker only: the terminator is missing
+        let b0 = [0x01u8];
+        match desert_core::deserialize::<Vec<u16>>(&b0) {
+            Ok(v) => { std::mem::forget(v); assert!(false, "an unknown-length sequence without its terminator was decoded"); }
+            Err(e) => std::mem::forget(e),
+        }
+        // -1 marker, one flagged element, terminator missing
+        let x: [u8; 2] = sym::bytes();
+        let b1 = [0x01u8, 0x01, x[0], x[1]];
+        match desert_core::deserialize::<Vec<u16>>(&b1) {
+            Ok(v) => { std::mem::forget(v); assert!(false, "an unknown-length sequence without its terminator was decoded"); }
+            Err(e) => { cover!(true); std::mem::forget(e); }
+        }
+    }
+}
